@@ -24,7 +24,14 @@ WORKERS = int(os.environ.get("VERIF_WORKERS", "16"))
 
 def _child(func, arg, wfd, limit):
     try:
-        faulthandler.dump_traceback_later(limit + 5, exit=True)
+        # SIGALRM watchdog (not faulthandler.dump_traceback_later: its watchdog *thread*
+        # deadlocks the nested forks that history-style cases make)
+        def _on_alarm(signum, frame):
+            faulthandler.dump_traceback(file=sys.stderr)
+            os._exit(3)
+
+        signal.signal(signal.SIGALRM, _on_alarm)
+        signal.alarm(int(limit) + 5)
         try:
             res = ("ok", func(arg))
         except BaseException as e:  # harness error, reported as such
@@ -289,7 +296,9 @@ def candidates(world, viol):
         w = copy.deepcopy(world)
         w["clock"] = {"t0": 1000.0, "steps": [], "tail": 0.0}
         yield "const-clock", w
-    p = world["problem"]
+    p = world.get("problem")
+    if p is None:
+        return
     for i in reversed(range(p["m"])):
         w = _del_con(world, i)
         if w is not None:
